@@ -325,6 +325,37 @@ def rule_display(ctx):
         obs.append(bad('DISPLAY-FORMAT', 'Error::fmt/first-location', 'location is selected with %s' % sorted(badm), fn.loc, 'not the first location'))
     elif loc_methods & {'next', 'first'} and loc_methods & {'unwrap_or_default', 'unwrap_or', 'unwrap_or_else'}:
         obs.append(ok('DISPLAY-FORMAT', 'Error::fmt/first-location', 'first location (%s), default when absent' % sorted(loc_methods & {'next', 'first'}), fn.loc))
+        # ... and that default is 0:0
+        zero = None
+        why = ''
+        if 'unwrap_or_default' in loc_methods:
+            dflt = [f_ for f_ in c.all_fns() if f_.path.endswith('::default') and (f_.d.get('impl_self') or '').endswith('graphql_client::Location')]
+            if not dflt:
+                why = 'no Default impl of Location found'
+            elif dflt[0].from_macro:
+                loc_item = [it for it in c.ast_items if it['kind'] == 'struct' and it['name'] == 'Location']
+                tys = {f_['ty'].replace(' ', '') for f_ in loc_item[0]['fields']} if loc_item else set()
+                zero = bool(tys) and tys <= {'i32', 'i64', 'u32', 'u64', 'usize', 'isize', 'i16', 'u16', 'u8', 'i8'}
+                why = 'derived Default over %s' % sorted(tys)
+            else:
+                lits = [n_['lit']['v'] for n_ in walk(dflt[0].body) if n_['k'] == 'lit']
+                structs = [n_ for n_ in walk(dflt[0].body) if n_['k'] == 'struct']
+                zero = bool(structs) and len(lits) >= 2 and all(v == 0 for v in lits)
+                why = 'manual Default impl with constants %s' % lits
+        else:
+            for src in fn.binds.get(hid, []) if hid else []:
+                if src[0] == 'expr':
+                    for _f, n_ in H.deep_nodes(ctx, fn, src[1], 2):
+                        if n_['k'] == 'mcall' and n_['method'] in ('unwrap_or', 'unwrap_or_else') and n_['args']:
+                            lits = [x['lit']['v'] for x in walk(n_['args'][0]) if x['k'] == 'lit']
+                            zero = len(lits) >= 2 and all(v == 0 for v in lits)
+                            why = 'fallback constants %s' % lits
+        if zero:
+            obs.append(ok('DISPLAY-FORMAT', 'Error::fmt/absent-location', 'an absent location prints as 0:0 (%s)' % why, fn.loc))
+        elif zero is None:
+            obs.append(undecided('DISPLAY-FORMAT', 'Error::fmt/absent-location', 'fallback location not recognised (%s)' % why, fn.loc))
+        else:
+            obs.append(bad('DISPLAY-FORMAT', 'Error::fmt/absent-location', 'an absent location does not print as 0:0 (%s)' % why, fn.loc, 'errors without a location print a made-up position'))
     else:
         obs.append(bad('DISPLAY-FORMAT', 'Error::fmt/first-location', 'location expression uses %s: first element / default fallback not established' % sorted(loc_methods), fn.loc,
                        'wrong or missing location'))
@@ -552,6 +583,11 @@ def rule_derive_options(ctx):
             continue
         nf, nenv = env_of(calls[0])
         t = ctx.pv.eval(nf, calls[0]['args'][0], nenv, 0)
+        conds_ = [pc for pc in P.path_conds(nf, calls[0]) if pc[0] in ('if', 'match', 'nomatch')]
+        if conds_:
+            obs.append(bad('ATTR-PLUMB', inst, '%s is applied only under a condition' % setter, calls[0].get('sp', ''),
+                           'for some structs the derive does not pass what the library would be given (e.g. a restricted visibility is dropped)'))
+            continue
         if TM.fields_in(t) == {want}:
             obs.append(ok('ATTR-PLUMB', inst, '%s <- %s' % (setter, want), calls[0].get('sp', '')))
         else:
